@@ -32,6 +32,10 @@ for u in UNITS:
     if u["unit"] == "crypto_merkle":
         u["trusted"] = [STUB]
 
+verus_unit("merklev", "merklev", ["C10"], ["MerkleTree::prove (every tree size / index: Err iff out of range, else the authentication path)",
+            "MerkleTree::verify (length check; accepts iff the fold of the path along the index bits equals the root)", "MerkleTree::root",
+            "lemma: verify(root(), i, prove(i)) accepts for every well-formed tree"])
+
 native_unit("merkle_native", "winter-crypto", "crypto", "native/merkle_bounded.rs", ["C10", "C06", "C03"],
             ["MerkleTree::prove_batch", "MerkleTree::verify_batch", "BatchMerkleProof::get_root", "BatchMerkleProof::into_paths",
              "BatchMerkleProof::from_paths", "merkle::map_indexes", "merkle::normalize_indexes"],
